@@ -212,6 +212,17 @@ class StreamCmp:
                             self.rounded = True
         if len(wi) != len(wo):
             return False
+        # the one-line `resume` experiment carries no history: a statistic that has cancelled to far below the quantities it
+        # was computed from (momentum m ~ 1e-5 from gradients ~ 1 after 12 steps) would be compared at its own magnitude,
+        # sharper than float32 rounding of its operands allows (found by a thorough run, seed 5, on the unchanged tree).
+        # On such a line every quantity is compared at no less than 2^-10 of the largest magnitude on the line.
+        floor = 0.0
+        if wi[:2] == ["ok", "same"]:
+            for w in wi:
+                if "=" in w:
+                    for t in w.split("=", 1)[1].split(","):
+                        floor = max(floor, _mag(t))
+            floor *= 2.0 ** -10
         for a, b in zip(wi, wo):
             if a == b:
                 continue
@@ -223,7 +234,7 @@ class StreamCmp:
                 la, lb = va.split(","), vb.split(",")
                 if len(la) != len(lb):
                     return False
-                self.cur = self.scale.get(ka, 0.0)
+                self.cur = max(self.scale.get(ka, 0.0), floor)
                 if not all(self.num(x, y) for x, y in zip(la, lb)):
                     return False
             else:
